@@ -510,6 +510,11 @@ macro_rules! define_frost_core { () => {
             // that the public key matches it, because this was already
             // verified when decoding.
 
+            // An empty list is not a VSS commitment; no share matches it.
+            if vsscomm.is_empty() {
+                return false;
+            }
+
             // The share carries its own copy of the group public key
             // (used to compute challenges when signing); it must match
             // the constant term of the VSS commitment.
